@@ -254,8 +254,8 @@ def _kwarg(call, name, pos):
             return k.value
     for k in call.keywords:
         if k.arg is None:
-            # **kwargs : axis comes from kwargs['axis']
-            return ast.Subscript(value=k.value, slice=ast.Constant(value=name), ctx=ast.Load())
+            # **kwargs : axis is kwargs.get('axis') (None when absent, numpy's default)
+            return ast.Call(func=ast.Attribute(value=k.value, attr="get", ctx=ast.Load()), args=[ast.Constant(value=name)], keywords=[])
     if len(call.args) > pos:
         return call.args[pos]
     return None
